@@ -356,6 +356,11 @@ func RunCheck(verifDir, repoDir, prop, tier string, seed int, overlay map[string
 				deadNotes = append(deadNotes, fmt.Sprintf("%s: %d unreachable %s probe(s), as reviewed", fn, n, kind))
 				continue
 			}
+			if len(cr.Violations) > 0 {
+				// changed code: unreachable parts are reported together with the violation, not as an error
+				fmt.Printf("NOTE %d %s reachability probe(s) of %s were refuted (reviewed dead code: %d)\n", n, kind, fn, deadBase[fn][kind])
+				continue
+			}
 			fmt.Printf("ERROR %d %s reachability probe(s) of %s were refuted (reviewed dead code: %d): contradictory contract assumptions\n", n, kind, fn, deadBase[fn][kind])
 			exit = 2
 		}
